@@ -3,6 +3,7 @@ package main
 import (
 	"bytes"
 	"encoding/json"
+	"errors"
 	"fmt"
 	"io"
 	"strings"
@@ -26,6 +27,9 @@ type c20ChanScn struct {
 	Take  string `json:"take"`  // read | readall
 	N     int    `json:"n"`
 	Reuse bool   `json:"reuse"` // the transport reuses one buffer for every Read
+	// FailAt > 0: the read in front of chunk number FailAt fails once (a transient error); the consumer is told once, and
+	// every chunk - those queued before the error as well - is still obtained
+	FailAt int `json:"failat,omitempty"`
 }
 
 type reuseTransport struct {
@@ -34,6 +38,8 @@ type reuseTransport struct {
 	chunks [][]byte
 	i      int
 	reuse  bool
+	failAt int
+	failed bool
 	closed chan struct{}
 	once   sync.Once
 }
@@ -45,6 +51,13 @@ func (t *reuseTransport) Write(_ []byte) error         { return nil }
 
 func (t *reuseTransport) Read(_ int) ([]byte, error) {
 	t.mu.Lock()
+
+	if t.failAt > 0 && t.i == t.failAt && !t.failed {
+		t.failed = true
+		t.mu.Unlock()
+
+		return nil, errors.New("transient read error")
+	}
 
 	if t.i < len(t.chunks) {
 		c := t.chunks[t.i]
@@ -71,7 +84,7 @@ func (t *reuseTransport) Read(_ int) ([]byte, error) {
 
 func c20ChanOne(idx int, s *c20ChanScn) verdict {
 	v := verdict{ID: idx, Variant: fmt.Sprintf("%s/%s/reuse=%v", s.Style, s.Take, s.Reuse), OK: true, Nontrivial: true}
-	t := &reuseTransport{buf: make([]byte, 64), reuse: s.Reuse, closed: make(chan struct{})}
+	t := &reuseTransport{buf: make([]byte, 64), reuse: s.Reuse, failAt: s.FailAt, closed: make(chan struct{})}
 
 	var want strings.Builder
 
@@ -124,6 +137,7 @@ func c20ChanOne(idx int, s *c20ChanScn) verdict {
 	var got bytes.Buffer
 
 	pieces := 0
+	errs := 0
 
 	fin, pan := withWatchdog(5*time.Second, func() {
 		for deadline := time.Now().Add(1500 * time.Millisecond); got.Len() < want.Len() && time.Now().Before(deadline); {
@@ -138,6 +152,12 @@ func c20ChanOne(idx int, s *c20ChanScn) verdict {
 			}
 
 			if rerr != nil {
+				if s.FailAt > 0 && errs == 0 {
+					errs++ // the one transient error is reported; the session goes on
+
+					continue
+				}
+
 				break
 			}
 
